@@ -219,7 +219,8 @@ def exec (regs : List RVal) (frames : List Frame) (c : Cmd) : M (List RVal × Li
     | some .dead | none => throw .dead
     | _ => throw .unsupported
   | .arrayOf r size => do
-    if (match size with | some n => decide (n < 1) | none => false) then throw .value else
+    -- `Array.__init__`: the size must be a positive integer (and is required on this path)
+    if (match size with | some n => decide (n < 1) | none => true) then throw .value else
     let v ← getVal regs r
     let c ← childOf v
     let arr := Val.array (.inst v) size (some c)
